@@ -720,7 +720,10 @@ func (x *gen) boundary() {
 		n    int
 	}{"inv", 50000})
 	for _, c := range caps {
-		for _, d := range []int{0, 1} {
+		for _, d := range []int{-1, 0, 1} {
+			if d == -1 && c.kind == "inv" {
+				continue
+			}
 			n := c.n + d
 			var b built
 			switch c.kind {
@@ -746,7 +749,7 @@ func (x *gen) boundary() {
 			case "inv":
 				b = built{kind: c.kind, msg: &wire.MsgInv{InvList: x.invs(n)}}
 			}
-			if d == 0 {
+			if d <= 0 {
 				emit(b, 70016)
 				continue
 			}
@@ -803,6 +806,27 @@ func (x *gen) boundary() {
 		q := append(make([]byte, c.pre), vb.Bytes()...)
 		q = append(q, make([]byte, c.n*c.esz+c.post)...)
 		x.dec("boundary", c.kind, 70016, "b", q, true)
+	}
+	// the only plain hash list that can cross 0xffff: cfcheckpt (cap 100000)
+	for _, n := range []int{0xffff, 0x10000, 0x10001} {
+		if !big && n != 0x10000 {
+			continue
+		}
+		emit(built{kind: "cfcheckpt", msg: &wire.MsgCFCheckpt{FilterHeaders: x.hashes(n)}}, 70016)
+	}
+	// a message whose payload is exactly MaxProtocolMessageLength, and one byte more (thorough: 8 MB of hex each)
+	if big {
+		for _, d := range []int{0, 1} {
+			m := &wire.MsgReject{Cmd: "x", Code: 1, Reason: string(make([]byte, 4000000-2-1-5+d))}
+			var w bytes.Buffer
+			m.BtcEncode(&w, 70016, wire.BaseEncoding)
+			p := w.Bytes()
+			net := uint32(wire.MainNet)
+			st := frameMsg(net, []byte("reject"), uint32(len(p)), chainhash.DoubleHashB(p)[:4], p)
+			x.msgCase("boundary", 70016, net, "b", st)
+			x.emit("boundary", true, fmt.Sprintf("C08 api 70016 %d %s", net, hx(st)))
+			x.emit("boundary", true, fmt.Sprintf("C08 v2 70016 b %s", hx(append(append([]byte{0}, frameCmd("reject")...), p...))))
+		}
 	}
 	// 0xffff / 0x10000 inputs-outputs-witness items (one each; a few MB in thorough only)
 	for _, n := range []int{0xffff, 0x10000} {
